@@ -15,7 +15,8 @@ use identity_verification::{MethodRelationship, MethodScope};
 use serde_json::{json, Map, Value};
 
 /// DID 4 has DID 1 as a proper string prefix (issuer equality must be equality of DIDs, not of prefixes)
-pub const DIDS: [&str; 5] = ["", "did:example:issuer", "did:example:other", "did:example:third", "did:example:issuer:sub"];
+/// DID 5 differs from DID 1 in the METHOD NAME only (same method-specific id): equality of DIDs is equality of the whole identifier
+pub const DIDS: [&str; 6] = ["", "did:example:issuer", "did:example:other", "did:example:third", "did:example:issuer:sub", "did:other:issuer"];
 pub const RESTS: [&str; 3] = ["", "/p1", "?q=1"];
 pub const BOUND_UNSET: i64 = 4102444800;
 pub const Y2200: i64 = 7258118400;
@@ -268,7 +269,7 @@ pub fn mutations() -> Vec<(&'static str, Vec<fn(&mut Case)>)> {
     ("scope", vec![|c| c.scope = 0, |c| c.scope = 1, |c| c.scope = 2, |c| c.scope = 3, |c| c.scope = 4, |c| c.scope = 5]),
     ("signature", vec![|c| c.sigkey = 11, |c| c.sigkey = 99]),
     ("claims", vec![|c| c.claims_ok = false, |c| { c.claims_ok = false; c.bad = 1; }, |c| { c.claims_ok = false; c.bad = 1; c.vc.expires = Some(100); }, |c| { c.claims_ok = false; c.bad = 2; }, |c| { c.claims_ok = false; c.bad = 3; }, |c| { c.claims_ok = false; c.bad = 4; }, |c| { c.claims_ok = false; c.bad = 5; }, |c| { c.claims_ok = false; c.bad = 6; }, |c| { c.claims_ok = false; c.bad = 7; }]),
-    ("issuer", vec![|c| c.vc.issuer = Some(2), |c| c.vc.issuer = None, |c| c.vc.issuer = Some(3), |c| c.vc.issuer = Some(4)]),
+    ("issuer", vec![|c| c.vc.issuer = Some(2), |c| c.vc.issuer = None, |c| c.vc.issuer = Some(3), |c| c.vc.issuer = Some(4), |c| c.vc.issuer = Some(5)]),
     ("issuance", vec![|c| c.vc.issued = 1999, |c| c.vc.issued = 2000, |c| c.vc.issued = 2001]),
     ("unset-bounds", vec![|c| c.latest = BOUND_UNSET, |c| { c.latest = BOUND_UNSET; c.vc.issued = Y2200; }, |c| { c.latest = BOUND_UNSET; c.vc.issued = Y2200; c.earliest = Y2200 + 100; c.vc.expires = Some(Y2200 + 200); },
       |c| c.earliest = BOUND_UNSET, |c| { c.earliest = BOUND_UNSET; c.vc.expires = Some(Y2200); }, |c| { c.earliest = BOUND_UNSET; c.vc.expires = None; }, |c| { c.earliest = BOUND_UNSET; c.latest = BOUND_UNSET; }, |c| { c.earliest = BOUND_UNSET; c.latest = BOUND_UNSET; c.vc.expires = Some(Y2200); },
